@@ -17,7 +17,7 @@ from leuvenmapmatching.map.inmem import InMemMap
 from leuvenmapmatching.map.sqlite import SqliteMap
 
 ID = "C18"
-CASES = {"quick": 400, "thorough": 20000}
+CASES = {"quick": 1500, "thorough": 30000}
 MIN_CASES_PER_SHARD = 12
 CASE_TIMEOUT = 60
 RULE = ("one case = a build history of 4..25 operations (add_node / add_nodes / add_edge / add_edges with and without no_commit / no_index, "
@@ -359,7 +359,7 @@ def check_case(ctx, case):
 
 
 TECHNIQUE = "runtime monitoring: build history applied to the real map and to a model; transaction-state hook after every operation; differential comparison original / reopened / model"
-LEVEL_TEXT = ("400 (quick) / 20k (thorough) generated build histories (single/bulk inserts, deferred commit and index, re-indexing, both metric "
+LEVEL_TEXT = ("{Q} (quick) / {T} (thorough) generated build histories (single/bulk inserts, deferred commit and index, re-indexing, both metric "
               "flags, custom projection settings) with 1-3 reopen cycles, plus InMemMap pickle cycles; after every committing operation the "
               "connection's transaction flag is checked, after reopening every attribute, bound distance function and query answer is compared. "
               "Held-on-observed.")
